@@ -29,7 +29,7 @@ PROPS = {
     "C04": {
         "level": "proof",
         "lean_modules": _MODS + ["Astria.Properties.C04"],
-        "theorems": ["Astria.C04_deposit_backed", "Astria.C04_deposit_asset", "Astria.C04_recv_deposit_backed", "Astria.C04_no_orphan_deposit",
+        "theorems": ["Astria.C04_deposit_backed", "Astria.C04_deposit_asset", "Astria.C04_recv_deposit_backed", "Astria.C04_refund_deposit_backed", "Astria.C04_no_orphan_deposit",
                      "Astria.C04_withdrawal_once", "Astria.C04_withdrawal_recorded_forever", "Astria.C04_replayed_withdrawal_rejected"],
         "harnesses": ["ledger"],
         "monitors": ["deposit_backed", "withdrawal_once", "recv_all_or_nothing", "failed_tx_no_effect", "dump_parse"],
